@@ -146,6 +146,13 @@ def gen_case(rng, ctx):
     if rng.random() < 0.5:
         settings["PARSERS"] = ["relative-time"]
     route = "clock" if rng.random() < 0.55 else "base"
+    edge = None
+    if rng.random() < 0.04:
+        # the result lands within hours of the first / last representable instant: with TO_TIMEZONE the
+        # conversion itself may leave the range, and then the answer is None, not an exception
+        route, edge = "base", rng.choice(["low", "high"])
+        settings["TIMEZONE"] = "UTC"
+        settings["TO_TIMEZONE"] = rng.choice(["America/New_York", "Asia/Tokyo", "Pacific/Kiritimati", "America/Sao_Paulo"])
     effective_zone = tzs or zone
     # zone databases (pytz / zoneinfo / C library) agree only on 1950..2037: outside that range
     # no zone conversion and no offset may be involved in what is compared
@@ -170,6 +177,12 @@ def gen_case(rng, ctx):
         # RELATIVE_BASE given; the clock and the process zone are somewhere else entirely
         skew = dt.datetime(rng.randrange(1971, 2036), rng.randrange(1, 13), rng.randrange(1, 29), rng.randrange(24), rng.randrange(60))
         clock_us = world.to_us(skew)
+        if edge:
+            wall = dt.datetime(rng.randrange(1990, 2030), 1, 1, 0, 30) if edge == "low" else dt.datetime(rng.randrange(1990, 2030), 12, 31, 23, 30)
+            n_ = wall.year - 1 if edge == "low" else 9999 - wall.year
+            units, sign = {"year": n_}, (-1 if edge == "low" else +1)
+            text = ("%d years ago" % n_) if edge == "low" else ("in %d years" % n_)
+            clock_time = None
         base = enc_value(wall)
         if rng.random() < 0.25 and "TO_TIMEZONE" not in settings:
             # an *aware* RELATIVE_BASE (fixed offset): the arithmetic is on its own wall clock
@@ -273,7 +286,17 @@ def eval_case(case):
     elif outcome[0] != "ok":
         problems.append(("exception", outcome[1]))
     elif res is None:
-        if None not in exp_walls:
+        conv_overflow = False
+        if to_tz and None not in exp_walls:
+            tzA_, tzB_ = pytz.timezone(eff_zone), pytz.timezone(to_tz)
+            for w in exp_walls:
+                try:
+                    tzA_.localize(w).astimezone(tzB_)
+                except (OverflowError, ValueError):
+                    conv_overflow = True
+        if conv_overflow:
+            stats["conversion_overflow_none"] = 1
+        elif None not in exp_walls:
             problems.append(("none", "expected one of %s" % sorted(map(str, exp_walls))[:3]))
     else:
         real_walls = {w for w in exp_walls if w is not None}
@@ -297,7 +320,10 @@ def eval_case(case):
                     inst = tzA.localize(w, is_dst=None)
                 except Exception:
                     continue
-                exp_b.add(inst.astimezone(tzB).replace(tzinfo=None))
+                try:
+                    exp_b.add(inst.astimezone(tzB).replace(tzinfo=None))
+                except OverflowError:
+                    exp_b.add(None)
             if exp_b and res.replace(tzinfo=None) not in exp_b:
                 problems.append(("wrong-to-timezone", "got %s, expected one of %s" % (res.replace(tzinfo=None), sorted(map(str, exp_b))[:3])))
         # awareness
